@@ -341,16 +341,24 @@ class CMapParser(PSStackParser[PSKeyword]):
             return
 
         if token is self.KEYWORD_DEF:
+            objs = self.pop(2)
+            if len(objs) != 2:
+                self._warn_once("The operator def needs a key and a value.")
+                return
             try:
-                ((_, k), (_, v)) = self.pop(2)
+                ((_, k), (_, v)) = objs
                 self.cmap.set_attr(literal_name(k), v)
             except PSSyntaxError:
                 pass
             return
 
         if token is self.KEYWORD_USECMAP:
+            objs = self.pop(1)
+            if len(objs) != 1:
+                self._warn_once("The operator usecmap needs the name of a CMap.")
+                return
             try:
-                ((_, cmapname),) = self.pop(1)
+                ((_, cmapname),) = objs
                 self.cmap.use_cmap(CMapDB.get_cmap(literal_name(cmapname)))
             except PSSyntaxError:
                 pass
